@@ -68,7 +68,7 @@ def gen(rng, scenario, tier):
         elif c < 0.84:
             ops.append(["kl", rng.choice(ids + ["build"]), rng.choice(ids + ["build"])])
         else:
-            ops.append(["plotly", rng.choice(["build"] + ids), rng.choice(ids + [None]), rng.choice([None, None, 1, 2])])
+            ops.append(["plotly", rng.choice(["build"] + ids), rng.choice(ids + [None]), rng.choice([None, None, 1, 2]), rng.random() < 0.35])
     return {"cfg": cfg, "build": build, "events": ops}
 
 
@@ -198,7 +198,12 @@ def run(case, ctx):
             a, b, md = op[1], op[2], op[3]
             if a not in model:
                 continue
-            df = ctx.call("C08:to_plotly_dataframe", part.to_plotly_dataframe, a, b, md)
+            cols = [f"col{j}" for j in range(data.shape[1])] if (len(op) > 4 and op[4]) else None   # column labels for the node names
+            if cols is None:
+                df = ctx.call("C08:to_plotly_dataframe", part.to_plotly_dataframe, a, b, md)
+            else:
+                ctx.probe("plotly_with_input_cols")
+                df = ctx.call("C08:to_plotly_dataframe", part.to_plotly_dataframe, a, b, md, input_cols=cols)
             exp_nodes = [(n, dp, p) for n, dp, p in nodes if md is None or dp <= md]
             if len(df) != len(exp_nodes) or len(set(df["idx"])) != len(df):
                 ctx.violation("plotly", "C08:plotly_rows",
@@ -214,6 +219,10 @@ def run(case, ctx):
                     raise EndRun()
                 pi = r["parent_idx"]
                 pi = None if (pi is None or (isinstance(pi, float) and np.isnan(pi))) else int(pi)
+                if cols is not None and p is not None and not str(r["name"]).startswith(cols[p.axis] + " "):
+                    ctx.violation("plotly", "C08:plotly_name",
+                                  f"op {t}: node depth {dp} is named {r['name']!r}; its parent splits on axis {p.axis} ({cols[p.axis]!r})")
+                    raise EndRun()
                 want_diff = None
                 if b is not None:
                     want_diff = (model[b][id(n)] if b in model else 0) - model[a][id(n)]
